@@ -149,6 +149,11 @@ func (g *genCtx) node(depth int) Node {
 		return n
 	case x < 34:
 		name := fmt.Sprintf("b%d", id)
+		if len(g.blocks) > 0 && g.r.Pct(15) {
+			if prev := g.blocks[len(g.blocks)-1]; prev != "nil" {
+				name = prev // an inner block with the same name shadows the outer one
+			}
+		}
 		g.blocks = append(g.blocks, name)
 		n := Node{K: "block", ID: id, Name: name, Kids: g.kids(depth-1, 2)}
 		g.blocks = g.blocks[:len(g.blocks)-1]
@@ -186,6 +191,13 @@ func (g *genCtx) node(depth int) Node {
 		return Node{K: "recover", ID: id, Kids: g.kids(depth-1, 2)}
 	default:
 		k := []string{"seq", "let", "when", "cond", "dolist", "dotimes", "lambda"}[g.r.Intn(7)]
+		if k == "dolist" || k == "dotimes" {
+			// the loop establishes a nil block: (return v) leaves it
+			g.blocks = append(g.blocks, "nil")
+			n := Node{K: k, ID: id, Kids: g.kids(depth-1, 2)}
+			g.blocks = g.blocks[:len(g.blocks)-1]
+			return n
+		}
 		return Node{K: k, ID: id, Kids: g.kids(depth-1, 2)}
 	}
 }
@@ -240,7 +252,11 @@ func (n *Node) render(dir string, b *strings.Builder) {
 	case "val":
 		b.WriteString("(sim-emit \"leaf\" \"val\")")
 	case "ret":
-		fmt.Fprintf(b, "(progn (sim-emit \"leaf\" \"ret\" \"%s\") (return-from %s 7))", n.Name, n.Name)
+		if n.Name == "nil" {
+			b.WriteString("(progn (sim-emit \"leaf\" \"ret\" \"nil\") (return 7))")
+		} else {
+			fmt.Fprintf(b, "(progn (sim-emit \"leaf\" \"ret\" \"%s\") (return-from %s 7))", n.Name, n.Name)
+		}
 	case "go":
 		fmt.Fprintf(b, "(progn (sim-emit \"leaf\" \"go\" \"%s\") (go %s))", n.Name, n.Name)
 	case "err":
@@ -261,9 +277,9 @@ func (n *Node) render(dir string, b *strings.Builder) {
 	case "cond":
 		fmt.Fprintf(b, "(cond (nil 'no) (t %s))", all())
 	case "dolist":
-		fmt.Fprintf(b, "(dolist (e%d '(1 2)) %s)", n.ID, all())
+		fmt.Fprintf(b, "(let ((lv%d (dolist (e%d '(1 2)) %s))) (sim-emit \"bend\" \"nil\") lv%d)", n.ID, n.ID, all(), n.ID)
 	case "dotimes":
-		fmt.Fprintf(b, "(dotimes (i%d 2) %s)", n.ID, all())
+		fmt.Fprintf(b, "(let ((lv%d (dotimes (i%d 2) %s))) (sim-emit \"bend\" \"nil\") lv%d)", n.ID, n.ID, all(), n.ID)
 	case "lambda":
 		fmt.Fprintf(b, "(funcall (lambda (a%d) %s) %d)", n.ID, all(), n.ID)
 	case "block":
@@ -856,6 +872,9 @@ func nonTailCrossings(n *Node, visible []string, crossing map[string][]string, o
 		if n.K == "block" {
 			vis = append(append([]string{}, visible...), n.Name)
 		}
+		if n.K == "dolist" || n.K == "dotimes" {
+			vis = append(append([]string{}, visible...), "nil")
+		}
 		last := i == len(n.Kids)-1
 		kind := n.K
 		// how the kids of this kind are rendered: inside which body form
@@ -897,6 +916,9 @@ func sanitize(n *Node, visible []string, unsafe map[string]bool, kinds map[strin
 		us := unsafe
 		if n.K == "block" {
 			vis = append(append([]string{}, visible...), n.Name)
+		}
+		if n.K == "dolist" || n.K == "dotimes" {
+			vis = append(append([]string{}, visible...), "nil")
 		}
 		last := i == len(n.Kids)-1
 		nonTail := !last || n.K == "file" || n.K == "tagbody"
